@@ -1,7 +1,7 @@
 META = {
     "level": "model_checking",
     "technique": "TLA+ model of both ends of one channel at critical-section grain (Channel.tla: every locked section of channel.py is one action, the hand-over to the transport a separate one) model-checked by TLC over all interleavings of close / shutdown / shutdown_write / send / sendall / send_stderr / recv and peer EOF / CLOSE arrival; TLC counterexamples and TLC-simulated behaviours (Channel_Gen) replayed step by step on two real Channel objects under a deterministic thread scheduler (linesched); schedules of the real code (bounded-preemption DFS + seeded random) logged at the wire and judged by TLC with the design spec's invariants (Channel_Trace.tla)",
-    "text": "TLC checks EOF <= 1, CLOSE <= 1, no DATA / EXTENDED_DATA after the side's own EOF or CLOSE, peer CLOSE answered, both CLOSEs exchanged => channel out of the ChannelMap, calls started after that send nothing and send()/sendall() raise. The model with the pinned hand-over outside the lock must yield the data-after-EOF/CLOSE counterexample for each of the three call-site pairs; each counterexample is then driven on the real code. Real threads on two real channels joined by harness message passing are explored with switch points at every lock operation, hand-over, dispatch and call boundary; every schedule's wire log and ChannelMap observations are replayed on the spec's observation variables and its invariants evaluated after every event",
+    "text": "TLC checks EOF <= 1, CLOSE <= 1, no DATA / EXTENDED_DATA after the side's own EOF or CLOSE, peer CLOSE answered, both CLOSEs exchanged => channel out of the ChannelMap, calls started after that send nothing and send()/sendall() raise. The repaired design (EOF/CLOSE held back behind data in flight, handed over by the last in-flight sender) must satisfy them, with liveness (a processed peer CLOSE is eventually answered, the queue drains); the model with the pinned hand-over outside the lock must yield the data-after-EOF/CLOSE counterexample for each of the three call-site pairs; each counterexample is then driven on the real code. Real threads on two real channels joined by harness message passing are explored with switch points at every lock operation, hand-over, dispatch and call boundary; every schedule's wire log and ChannelMap observations are replayed on the spec's observation variables and its invariants evaluated after every event",
     "note": "trusted: TLC, linesched (one thread at a time; switch points at every lock/condition/event operation of channel.py and buffered_pipe.py and at every hand-over to the fake transport - the window between releasing the channel lock and _send_user_message is one of them), the fake transport (records hand-over order, real ChannelMap), harness dispatch mimicking Transport.run. 'Released' is judged after the handler that processed the peer's CLOSE has returned",
 }
 import random
@@ -12,12 +12,16 @@ from harness.drivers import channel as dc
 INVS = ["EofOnce", "CloseOnce", "NoDataAfterCtl", "CloseAnswered", "ReleasedInv", "NoSendAfterRelease"]
 BASE = dict(UsersA={"a1", "a2"}, UsersB={"b1"}, Daemons="@{}", OpsA="@{}", OpsB="@{}", MaxCalls=1, W0=4, MaxPkt=2, PeerMax=2,
             Thresh=1, SendN=3, Codes={1}, ReadSizes={2}, Modes={"block"}, Loss=False,
-            FixRace=True, FixSendall=True, FixCredit=True, Mut="none", SpinCap=3, HoldBack=False)
+            FixRace=False, HoldBack=True, FixSendall=True, FixCredit=True, Mut="none", SpinCap=3)
+# the repaired setting: the hand-over stays outside the lock; EOF/CLOSE are held back behind data messages in flight and
+# handed over by the last in-flight sender (nobody waits).  MINVS adds the model-only forms (queue contents are not observable)
+MINVS = INVS + ["CloseAnsweredExact", "QueueDrains"]
+LIVE = dict(spec="FairSpec", properties=["AnsweredEventually", "DrainsEventually"])
 U = 4032
 SITES = {"close": "close", "shutdown_write": "shutdown", "shutdown_rw": "shutdown"}
 
 
-GEN = dict(BASE, OpsA={"send", "sendall", "send_err", "close", "shutdown_write", "shutdown_rw", "recv"},
+GEN = dict(BASE, HoldBack=False, OpsA={"send", "sendall", "send_err", "close", "shutdown_write", "shutdown_rw", "recv"},
            OpsB={"recv", "recv_err", "close", "send", "shutdown_write"}, MaxCalls=2, W0=10, SendN=7, ReadSizes={1, 3, 12},
            Modes={"block", "nonblock"}, FixRace=False, FixSendall=False, FixCredit=False)
 PAIRS = (("close", {"send", "close"}, "@{}"), ("shutdown", {"send", "shutdown_write"}, "@{}"), ("_handle_close", {"send"}, {"close"}))
@@ -26,32 +30,44 @@ PAIRS = (("close", {"send", "close"}, "@{}"), ("shutdown", {"send", "shutdown_wr
 def model(c, runs):
     ops_a = {"sendall", "send_err", "close", "shutdown_write", "shutdown_rw", "recv"}
     ops_b = {"recv", "close", "shutdown_write", "send"}
-    jobs = [dict(name="hand-over inside the locked section: 2+1 threads x 1 call, all ops", module="Channel",
-                 cfg=cfg_text(constants=dict(BASE, OpsA=ops_a, OpsB=ops_b), invariants=INVS))]
+    if c.quick:      # (the thorough tier keeps every operation on both sides)
+        ops_a, ops_b = ops_a - {"recv"}, {"close", "shutdown_write"}
+    jobs = [dict(name="hold-back repair: 2+1 threads x 1 call, %s" % ("writers vs close / shutdown / peer close" if c.quick else "all ops"), module="Channel",
+                 cfg=cfg_text(constants=dict(BASE, OpsA=ops_a, OpsB=ops_b), invariants=MINVS)),
+            dict(name="hold-back repair, liveness: a processed peer CLOSE is answered, the queue drains", module="Channel",
+                 cfg=cfg_text(constants=dict(BASE, OpsA={"send", "shutdown_write"} if c.quick else {"send", "sendall", "shutdown_write"},
+                                             OpsB={"close"}, W0=3, Thresh=0), invariants=[], **LIVE))]
     if not c.quick:
         jobs.append(dict(name="3+1 threads, transport loss", module="Channel", kw={"timeout": 800, "workers": 6},
                          cfg=cfg_text(constants=dict(BASE, UsersA={"a1", "a2", "a3"}, OpsA={"send", "close", "shutdown_write"},
-                                                     OpsB={"close", "recv"}, Loss=True), invariants=INVS)))
+                                                     OpsB={"close", "recv"}, Loss=True), invariants=MINVS)))
         jobs.append(dict(name="2+1 threads x 2 calls", module="Channel", kw={"timeout": 800, "workers": 6},
                          cfg=cfg_text(constants=dict(BASE, OpsA={"send", "close", "shutdown_rw"}, OpsB={"close", "send"}, MaxCalls=2,
-                                                     SendN=2), invariants=INVS)))
+                                                     SendN=2), invariants=MINVS)))
+        jobs.append(dict(name="hand-over inside the locked section (the other repair): 2+1 threads x 1 call, all ops", module="Channel",
+                         cfg=cfg_text(constants=dict(BASE, FixRace=True, HoldBack=False, OpsA=ops_a, OpsB=ops_b), invariants=INVS)))
+        jobs.append(dict(name="hold-back repair, liveness with a local close()", module="Channel",
+                         cfg=cfg_text(constants=dict(BASE, OpsA={"send", "close"}, OpsB={"close"}, W0=3, Thresh=0), invariants=[], **LIVE)))
     # the pinned tree: message built under the lock, handed over after releasing it
     for name, a, b in PAIRS:
         jobs.append(dict(name="pinned hand-over outside the lock: _send vs %s" % name, module="Channel", expect="NoDataAfterCtl",
-                         cfg=cfg_text(constants=dict(BASE, OpsA=a, OpsB=b, FixRace=False, SendN=2), invariants=["NoDataAfterCtl"])))
+                         cfg=cfg_text(constants=dict(BASE, OpsA=a, OpsB=b, HoldBack=False, SendN=2), invariants=["NoDataAfterCtl"])))
     # mutated models (quick tier: one JVM start costs seconds on a busy machine, so only the thorough tier runs these)
-    for mut, inv in (() if c.quick else (("eof_twice", "EofOnce"), ("no_close_answer", "CloseAnswered"), ("no_unlink", "ReleasedInv"))):
+    for mut, inv in ((("no_flush", "QueueDrains|CloseAnswered|CloseAnsweredExact"),) if c.quick else
+                     (("no_flush", "QueueDrains|CloseAnswered|CloseAnsweredExact"), ("eof_twice", "EofOnce"),
+                      ("no_close_answer", "CloseAnswered|CloseAnsweredExact"), ("no_unlink", "ReleasedInv"))):
         jobs.append(dict(name="sensitivity: " + mut, module="Channel", expect=inv,
                          cfg=cfg_text(constants=dict(BASE, OpsA={"send", "close", "shutdown_write"}, OpsB={"close", "recv"}, Mut=mut),
-                                      invariants=INVS)))
+                                      invariants=MINVS)))
     jobs.append(dict(name="simulate (spec -> code)", module="Channel_Gen", simulate=True, expect="behaviours",
-                     cfg=cfg_text(spec="GSpec", constants=GEN, invariants=["GenEmit"]),
+                     cfg=cfg_text(spec="GSpec", constants=dict(GEN, HoldBack=dc.holdback()), invariants=["GenEmit"]),
                      kw=dict(workers=1, simulate="num=%d" % (40 if c.quick else 500), extra=["-depth", "150", "-seed", str(c.seed + 1)])))
     res = dc.mc_batch(c, jobs)
+    gen = dict(GEN, HoldBack=dc.holdback())
     # RP 1: drive the real code along each counterexample
     for name, a, b in PAIRS:
         r = res["pinned hand-over outside the lock: _send vs %s" % name]
-        prog, plan = dc.plan_from_counterexample(r, dict(BASE, SendN=2), U)
+        prog, plan = dc.plan_from_counterexample(r, dict(BASE, SendN=2), U)   # (pinned structure: hand-over outside the lock)
         ex = dc.replay_plan(prog, plan)
         if ex.drift:
             c.conformance("counterexample_not_followed:" + name, "the schedule of the TLC counterexample (_send vs %s) could not be followed on this tree: %s" % (name, ex.drift))
@@ -63,7 +79,7 @@ def model(c, runs):
         raise Machinery("Channel_Gen produced no behaviour\n%s" % res["simulate (spec -> code)"].out[-2000:])
     differ = 0
     for b in behs:
-        diffs, ex, prog, plan = dc.replay_behaviour(b, GEN, U)
+        diffs, ex, prog, plan = dc.replay_behaviour(b, gen, U)
         runs.add(prog, "tlc-behaviour", ex, plan)
         c.case(key=("beh", repr(b[1])))
         if diffs:
@@ -93,7 +109,12 @@ def programs(rnd, n):
         peer = rnd.choice([[("close",)], [("shutdown_write",)], [("recv", 8192), ("close",)], [("close",), ("send", 5)], []])
         if peer or not closer:
             th["b1"] = peer or [("close",)]
-        progs.append({"par": par, "threads": th})
+        if rnd.random() < 0.15:
+            par["fail"] = {"A": [rnd.choice([1, 2])]}
+        prog = {"par": par, "threads": th}
+        if rnd.random() < 0.15:
+            prog["lost"] = ["A"]
+        progs.append(prog)
     return progs
 
 
@@ -104,6 +125,14 @@ FIXED = [
     {"threads": {"a1": [("close",)], "a2": [("close",)], "b1": [("close",)]}},
     {"threads": {"a1": [("shutdown_write",), ("close",)], "a2": [("shutdown_rw",)], "b1": [("shutdown_write",)]}},
     {"threads": {"a1": [("close",), ("send", 10), ("recv", 10), ("shutdown_write",)], "b1": [("close",), ("sendall", 10)]}},
+    # the hand-over of a data message fails (key re-exchange timed out) while another thread closes / the peer closes
+    {"threads": {"a1": [("send", 100)], "a2": [("close",)]}, "fail": {"A": [1]}},
+    {"threads": {"a1": [("sendall", 9000)], "a2": [("shutdown_write",)], "b1": [("close",)]}, "fail": {"A": [2]}},
+    {"threads": {"a1": [("send", 100)], "a2": [("send_err", 100)], "b1": [("close",)]}, "fail": {"A": [1]}},
+    # writers blocked on an exhausted window when close / peer close / transport loss arrive
+    {"threads": {"a1": [("sendall", 40000)], "a2": [("close",)]}},
+    {"threads": {"a1": [("sendall", 40000)], "a2": [("send", 5)], "b1": [("close",)]}},
+    {"threads": {"a1": [("sendall", 9000)], "a2": [("close",)], "b1": [("close",)]}, "lost": ["A"]},
 ]
 
 
@@ -135,8 +164,13 @@ def run(c):
     laps = {"model+replay_s": round(time.time() - t0, 1)}
     progs = []
     for p in FIXED:
-        progs.append({"par": {"win": {"A": 32768, "B": 32768}, "pkt": {"A": 4096, "B": 4096}, "tmo": {"A": "block", "B": "block"}},
-                      "threads": p["threads"]})
+        prog = {"par": {"win": {"A": 32768, "B": 32768}, "pkt": {"A": 4096, "B": 4096}, "tmo": {"A": "block", "B": "block"}},
+                "threads": p["threads"]}
+        if "fail" in p:
+            prog["par"]["fail"] = p["fail"]
+        if "lost" in p:
+            prog["lost"] = p["lost"]
+        progs.append(prog)
     progs += programs(rnd, 10 if c.quick else 150)
     deadline = time.time() + (9 if c.quick else 200)
     explored = dc.explore_into(runs, c, progs, 25 if c.quick else 250, 6 if c.quick else 40, deadline,
